@@ -51,6 +51,16 @@ CLAIMED = {
              "the real functions are compared with those tables at every index, every pixel of every grid size 2..9 (odd and even), "
              "with rotations, list/count slices, p2v/rms normalisations and linear combinations.",
         note="Bounded (MaxJ, MaxRad in cfg). Gram -> identity as the grid is refined is a limit and is not decided."),
+    "C18": dict(
+        engine="tlc+replay", design_ref="DESIGN.md §3 C18",
+        technique="TLA+ spec ProfileComp.tla: optimal_grouping transcribed function by function (vicinity, cost, first-argmin, minimisation loop, restarts) with every numpy.random.choice outcome as nondeterministic choice; equivalent-layers slabs over exact rationals; TLC checks ExactlyL/TotalConserved/HeightsIncreasing/GroupsPartition/NoWorseThanEqualSplit/Terminates; every terminal state replayed into the real code with the restart outcomes forced",
+        text="TLC quantifies over all profiles in scope (2..5 layers, three height families, strengths {0,1,3}; thorough 6 layers, "
+             "{0,1,2,5}), all L, R in 0..2 and ALL restart outcomes; the real optimal_grouping is run on every terminal state with "
+             "numpy.random.choice forced to the model's outcome (plus real global seeds whose draws must be outcomes the model "
+             "allows), equivalent_layers on every profile and on a 400 x 40 (range, L) scan; the statement's conservation laws are "
+             "evaluated on the real outputs.",
+        note="Bounded scope. GCTM: only 'exactly L, non-negative' (moment reproduction is optimiser accuracy, not decided). Heights "
+             "of empty (zero-strength) slabs are not judged."),
 }
 
 NOT_APPLICABLE = {
